@@ -132,7 +132,7 @@ class Unit:
             self.map.append(o)
 
 
-STD_RULES = ["R7", "R20", "R27", "R29", "R30", "R31", "R35"]   # definitional unfoldings of std combinators, safe to apply anywhere
+STD_RULES = ["R7", "R20", "R27", "R29", "R30", "R31", "R35", "R37"]   # definitional unfoldings of std combinators, safe to apply anywhere
 
 
 def apply_rules(text, names, unit, where):
@@ -258,6 +258,14 @@ def _process(unit, tpath, repo):
                 qual = "::".join([[w for w in p.split() if not w.startswith("#")][-1] for p in path][:-1] + [nm])
                 unit.missing.append({"unit": unit.name, "qual": qual, "file": f, "path": path, "props": [p for p in kv.get("props", "").split(",") if p],
                                      "tmpl": rel, "tmpl_line": i + 1, "what": kv.get("what", "").replace("_", " ")})
+                j = i + 1
+                while j < len(lines) and lines[j].strip() != "//@end":
+                    j += 1
+                i = j + 1
+                continue
+            if it is None and kv.get("missing") == "skip":
+                # an optional helper of the current source: without it the overlay for it is simply not emitted (its callers' contracts decide)
+                unit.lost_regions.append("optional function %s absent" % " :: ".join(path))
                 j = i + 1
                 while j < len(lines) and lines[j].strip() != "//@end":
                     j += 1
